@@ -216,6 +216,81 @@ def shared_table_rule(R7, mods):
                 R7.ok(inst, nontrivial=(len(R7.nontrivial) < 400))
 
 
+ONE_SHOT = ('map', 'filter', 'zip', 'reversed', 'iter', 'enumerate')
+
+
+def _oneshot_bindings(tree):
+    """module- or class-level names (roots of the assignment targets) bound to, or holding, a one-shot iterator: [(name, node, text)]"""
+    out = []
+
+    def holds_iterator(v):
+        for x in ast.walk(v):
+            if isinstance(x, ast.GeneratorExp):
+                return x
+            if isinstance(x, ast.Call) and isinstance(x.func, ast.Name) and x.func.id in ONE_SHOT:
+                # consumed at once by an enclosing list(..) / tuple(..) / sorted(..) / dict(..) / set(..) / sum / any / all / join: not stored
+                return x
+        return None
+
+    def consumed(v, it):
+        par = {}
+        for n in ast.walk(v):
+            for ch in ast.iter_child_nodes(n):
+                par[id(ch)] = n
+        p_ = par.get(id(it))
+        while p_ is not None:
+            if isinstance(p_, ast.Call) and ((isinstance(p_.func, ast.Name) and p_.func.id in ('list', 'tuple', 'sorted', 'dict', 'set', 'frozenset', 'sum', 'any', 'all', 'max', 'min', 'len'))
+                                            or (isinstance(p_.func, ast.Attribute) and p_.func.attr in ('join', 'extend', 'update'))):
+                return True
+            if isinstance(p_, (ast.ListComp, ast.SetComp, ast.DictComp)):
+                return True
+            p_ = par.get(id(p_))
+        return False
+    bodies = [tree.body] + [c.body for c in tree.body if isinstance(c, ast.ClassDef)]
+    for body in bodies:
+        for st in body:
+            if isinstance(st, (ast.Assign, ast.AugAssign)):
+                v = st.value
+                it = holds_iterator(v)
+                if it is None or consumed(v, it):
+                    continue
+                for tg in (st.targets if isinstance(st, ast.Assign) else [st.target]):
+                    r = tg
+                    while isinstance(r, (ast.Subscript, ast.Attribute)):
+                        r = r.value
+                    if isinstance(r, ast.Name):
+                        out.append((r.id, st, u(it)[:60]))
+    return out
+
+
+def oneshot_rule(R, mods):
+    example = ast.parse("T = {32: [1, 2]}\nT[16] = map(lambda r: r + 1, T[32])\nU = list(map(str, [1]))\ndef f(s):\n    for i, r in enumerate(T[s]):\n        pass\n")
+    ex = _oneshot_bindings(example)
+    if [n for n, _, _ in ex] != ['T']:
+        raise AnalysisError('C12.D15: the built-in positive example is no longer recognised')
+    n_found = 0
+    for m in mods:
+        binds = _oneshot_bindings(m.tree)
+        if not binds:
+            continue
+        used_in = {}
+        for fn in [n for n in ast.walk(m.tree) if isinstance(n, ast.FunctionDef)]:
+            for x in ast.walk(fn):
+                if isinstance(x, ast.Name) and isinstance(x.ctx, ast.Load):
+                    used_in.setdefault(x.id, fn)
+                if isinstance(x, ast.Attribute):
+                    used_in.setdefault(x.attr, fn)
+        for name, st, txt in binds:
+            n_found += 1
+            if name in used_in:
+                R.violation('%s::%s' % (m.name, name), 'one-shot-iterator:%s:%s' % (m.name, name), '%s.%s holds the iterator %s, created once when the module is loaded, and %s reads it on every call: '
+                            'the first call consumes it, later calls find it empty' % (m.name, name, txt, used_in[name].name), where(m, st), witness='lifting 66 60 (pushaw) twice')
+            else:
+                R.ok('%s::%s' % (m.name, name), sample='%s.%s holds an iterator no function reads' % (m.name, name))
+    if not n_found:
+        R.ok('no stored iterator', sample='no module- or class-level table of the API modules holds a one-shot iterator (positive example recognised)')
+
+
 MEMO_DECORATORS = ('lru_cache', 'cache', 'memoize', 'memoized', 'memoise', 'cached')
 
 
@@ -669,6 +744,10 @@ def run(ctx, report):
     from .c10 import dis_rewind_rule
     arch14 = ctx.mod('ia32_arch')
     dis_rewind_rule(ctx, R14, arch14, arch14.method('x86_mn', '_dis'))
+
+    R15 = report.rule('C12.D15', 'no long-lived table holds a one-shot iterator (map / filter / zip / reversed / iter / a generator expression stored at module or class level and read '
+                      'inside a function): the first call consumes it, every later call finds it empty', floor=1)
+    oneshot_rule(R15, mods)
 
     R13 = report.rule('C12.D13', 'a function whose results are cached (functools.lru_cache / cache, memoize decorators) hands out the same object for the same argument: no caller edits '
                       'such a result (directly, as element of a list of results, or through a loop variable)', floor=1)
